@@ -74,6 +74,12 @@ def path_agreement(ka: int, kc: int, ke: int, kb: int, v: int, bottom_up: bool) 
         want.append("a")
     schema.b_x = _leaf(kb)
     want.append("b_x")
+    if kb in (0, 1):
+        schema.empty_section = Schema()          # a sub-schema without any field yet
+        want.append("empty_section")
+        if kb == 1:
+            schema.a_holder.inner_empty = Schema()
+            want += ["a_holder", "a_holder.inner_empty"]
     fields = get_all_fields(schema)
     hold("path", sorted(p for p, _, _ in fields) == sorted(want), "enumerated paths differ from the declared ones")
     cfg = schema()
@@ -151,9 +157,13 @@ def parser_options(dummy: bool) -> bool:
 
 def _override(p_port: int, p_name: bool, p_rate: bool, p_debug: int, p_quiet: int, p_flag: int,
               p_level: bool, p_pw: bool, preset: bool,
-              ig_port: bool, ig_debug: bool, ig_flag: bool, ig_as_str: bool) -> bool:
+              ig_port: bool, ig_debug: bool, ig_flag: bool, ig_as_str: bool, via_config: bool = False) -> bool:
     schema = _cli_schema()
     cfg = schema()
+    early_parser = None
+    if via_config:
+        # the usual sequence: build the parser (from the configuration), parse, THEN load the file, then override
+        early_parser = generate_argparse_parser(cfg, prog="t", add_help=False)
     if preset:
         cfg.port = 8000
         cfg.debug = False
@@ -198,7 +208,7 @@ def _override(p_port: int, p_name: bool, p_rate: bool, p_debug: int, p_quiet: in
     if p_pw:
         argv += ["--sub-deep-pw", "hunter2"]
         want["sub"]["deep"]["pw"] = "hunter2"
-    parser = generate_argparse_parser(schema, prog="t", add_help=False)
+    parser = early_parser or generate_argparse_parser(schema, prog="t", add_help=False)
     args = parser.parse_args(argv)
     # a bare string names ONE option: "port", or (ig_flag too) "sub.level_x", of which "level_x" is a substring
     ign = ("sub.level_x" if ig_flag else "port") if ig_as_str else ignore
@@ -221,21 +231,23 @@ def _deepcopy(x):
 
 def _make(p_debug: int, p_flag: int):
     @obligation(prop="C16", name="cmdline_override_d%d_f%d" % (p_debug, p_flag), group="cmdline_override",
-                sites=("override",), budget={"quick": 240, "thorough": 600},
+                sites=("override",), budget={"quick": 500, "thorough": 900},
                 encodes=["cincoconfig.support.generate_argparse_parser", "cincoconfig.support.cmdline_args_override",
                          "cincoconfig.core.Config.__setitem__"],
                 what="real command lines over the generated parser (scalar options absent/present/invalid; boolean "
                      "switches absent/on/off, fixed per obligation) with a symbolic ignore list (none, list, bare "
                      "string): after the override every field == (supplied and not ignored ? validated value : "
                      "previous value), from the default state and from a preset state")
-    def ob(p_port: int, p_scalars: bool, p_pw: bool, preset: bool, ig: int) -> bool:
+    def ob(p_port: int, p_scalars: bool, p_pw: bool, preset: bool, ig: int, via_config: bool) -> bool:
         """
         pre: 0 <= p_port <= 2 and 0 <= ig <= 5
         post: _
         """
+        if via_config and (ig or not preset):
+            skip("parser built from the configuration before it changes: explored with a preset state, no ignore list")
         # ig: 0 none, 1 ["port"], 2 "port" (bare string), 3 ["debug"], 4 ["sub.flag"], 5 "sub.level_x" (bare string)
         return _override(p_port, p_scalars, p_scalars, p_debug, p_debug, p_flag, p_scalars, p_pw, preset,
-                         ig in (1, 2, 5), ig == 3, ig in (4, 5), ig in (2, 5))
+                         ig in (1, 2, 5), ig == 3, ig in (4, 5), ig in (2, 5), via_config)
 
 
 for _d in (0, 1, 2):
